@@ -908,7 +908,8 @@ static int write_table(void *context, cif_value_tp *table_value) {
                     FAIL(soft, ((result == CIF_MEMORY_ERROR) ? CIF_MEMORY_ERROR : CIF_INTERNAL_ERROR));
                 }
 
-                if (u_strHasMoreChar32Than(*key, -1, LINE_LENGTH(context) - (LAST_COLUMN(context) + 4))
+                /* the output column is tracked in code units (as u_fprintf() counts), so the key is measured in units, too */
+                if ((u_strlen(*key) > LINE_LENGTH(context) - (LAST_COLUMN(context) + 4))
                         && !write_newline(context)) {
                     FAIL(soft, CIF_ERROR);
                 }
